@@ -431,7 +431,7 @@ ALLOC_EXCEPTIONS = {
 }
 
 
-def check_allocations(run, rule='R11a'):
+def check_allocations(run, rule='R11a', only=None, floor=8):
     """Object-dtype-aware allocation: in a SymPy-supported function and the base functions it calls, an array allocated
     with zeros/eye/identity/empty that receives values derived from the (possibly symbolic) arguments takes its dtype
     from them (dtype=X.dtype / 'O'), or the store is in the numeric branch of a dtype test."""
@@ -445,6 +445,8 @@ def check_allocations(run, rule='R11a'):
                 S[g.key] = g
     n = 0
     for g in S.values():
+        if only is not None and g.key not in only:
+            continue
         if g.key in ALLOC_EXCEPTIONS:
             run.info(rule, g.key, 'allocation', ALLOC_EXCEPTIONS[g.key], f=g)
             continue
@@ -464,6 +466,7 @@ def check_allocations(run, rule='R11a'):
         cfg = CFG(g.node)
         facts = must_facts(cfg)
         allocs = {}
+        dtype_of = {}
         for x in own_walk(g.node):
             if isinstance(x, ast.Assign) and len(x.targets) == 1 and isinstance(x.targets[0], ast.Name) and isinstance(x.value, ast.Call):
                 nm = cname(fi, x.value)
@@ -473,6 +476,8 @@ def check_allocations(run, rule='R11a'):
                                                 (isinstance(dt, ast.Constant) and dt.value in ('O', 'object')) or
                                                 (isinstance(dt, ast.Name) and dt.id == 'object'))
                     allocs.setdefault(x.targets[0].id, []).append((x, aware))
+                    if dt is not None and isinstance(dt, ast.Attribute) and dt.attr == 'dtype' and isinstance(dt.value, ast.Name):
+                        dtype_of.setdefault(x.targets[0].id, set()).add(dt.value.id)
         for node in cfg.nodes:
             a = node.ast
             if node.kind != 'stmt' or not isinstance(a, ast.Assign):
@@ -483,6 +488,22 @@ def check_allocations(run, rule='R11a'):
                         continue
                     n += 1
                     name = t.value.id
+                    # the array takes its dtype from ONE argument: a value derived from another array argument may need a wider
+                    # type (integer P, float Q: the store truncates silently)
+                    srcs = dtype_of.get(name, set())
+                    if srcs:
+                        src_params = set()
+                        for q in srcs:
+                            src_params |= {p for (p, kind) in origin.get(q, set())} | {q}
+                        others = sorted({p for (p, kind) in st.expr_origin(fi, a.value, origin)
+                                         if p in params and kind == ARRAY and p not in src_params})
+                        if others:
+                            run.violation(rule, g.key, 'store into %s of a value from %s' % (name, '/'.join(others)),
+                                          '%s is allocated with dtype=%s.dtype but receives %s, which is computed from the argument %s as well: '
+                                          'when %s is an integer array (e.g. transl(1, 2, 3)) and %s is not, the result is truncated to '
+                                          'integers' % (name, '/'.join(sorted(srcs)), src(a.value, 40), '/'.join(others), '/'.join(sorted(srcs)),
+                                                        '/'.join(others)), f=g, node=a)
+                            continue
                     if all(aw for (_, aw) in allocs[name]):
                         run.holds(rule, g.key, 'store into ' + name, 'allocated with a dtype taken from the argument', f=g, node=a)
                         continue
@@ -504,8 +525,8 @@ def check_allocations(run, rule='R11a'):
                         run.violation(rule, g.key, 'store into ' + name, 'argument-derived values (%s) are written into %s, which is '
                                       'allocated as a float array without regard to the argument dtype: a symbolic argument cannot be '
                                       'stored (TypeError) although the call tree is marked SymPy-supported' % (src(a.value, 40), name), f=g, node=a)
-    if n < 8:
-        run.error('R11a: only %d argument-derived stores into allocated arrays found (expected >= 8)' % n)
+    if n < floor:
+        run.error('R11a: only %d argument-derived stores into allocated arrays found (expected >= %d)' % (n, floor))
 
 
 def check_getvector_dtype(run, rule='R11d'):
